@@ -45,12 +45,9 @@ def first_error(log: str) -> str:
 
 
 def setup() -> int:
+    """Build everything the claimed checks need: regenerate Gen/*.v, full .vo build of every
+    property file listed by a check of MANIFEST.json (and what it depends on), hygiene scan."""
     t0 = time.time()
-    bad = C.hygiene_scan()
-    if bad:
-        print('HYGIENE FAILURES:\n' + '\n'.join(bad))
-        return 1
-    # regenerate everything generated
     import pkgutil
     import translate
     for m in pkgutil.iter_modules(translate.__path__):
@@ -60,11 +57,24 @@ def setup() -> int:
                 C.write_if_changed(C.GEN / t.OUTPUT, t.translate(C.REPO))
             except Exception as e:
                 print(f'translator {m.name} failed at setup: {e!r} (left to the checks to report)')
-    ok, log = C.coq_make([], timeout=3000)
+    man = json.loads((C.VERIF / 'MANIFEST.json').read_text())
+    prop_files: list[str] = []
+    for c in man.get('checks', []):
+        pid = c['property_id']
+        try:
+            mod = importlib.import_module(f'harness.props.{pid.lower()}')
+            prop_files += getattr(mod, 'PROP_FILES', [f'Props/{pid}.v'])
+        except Exception as e:
+            print(f'cannot import the module of {pid}: {e!r}')
+            return 1
+    bad = C.hygiene_scan(prop_files)
+    if bad:
+        print('HYGIENE FAILURES:\n' + '\n'.join(bad))
+        return 1
+    targets = sorted({f'theories/{f}o' for f in prop_files} | {'theories/Life/Obs.vo'})
+    ok, log = C.coq_make(targets, timeout=3000)
     print(log[-3000:])
-    print(f'setup: make {"ok" if ok else "FAILED"} in {time.time() - t0:.0f}s')
-    # the build of a proof may legitimately fail when /repo was changed; setup itself
-    # only fails if the tool chain is unusable
+    print(f'setup: make {len(targets)} targets {"ok" if ok else "FAILED"} in {time.time() - t0:.0f}s')
     return 0 if ok else 1
 
 
@@ -94,13 +104,13 @@ def main() -> int:
 def decide(mod, ctx) -> int:
     prop, tier = ctx.prop, ctx.tier
     broken: list[str] = []           # broken obligations (names)
-    # 1. hygiene + translators
-    bad = C.hygiene_scan()
+    # 1. translators + hygiene (of everything the property files depend on; ./check --setup scans all)
+    prop_files = getattr(mod, 'PROP_FILES', [f'Props/{prop}.v'])
+    broken += run_translators(mod, ctx)
+    bad = C.hygiene_scan(prop_files)
     if bad:
         broken += [f'hygiene:{b}' for b in bad]
-    broken += run_translators(mod, ctx)
     # 2. proofs
-    prop_files = getattr(mod, 'PROP_FILES', [f'Props/{prop}.v'])
     targets = [f'theories/{f}o' for f in prop_files]
     ok, log = C.coq_make(targets, timeout=1800)
     thms: list[str] = []
